@@ -211,7 +211,7 @@ def driver_verdicts(ctx, facts):
         raise vlib.BuildError("driver c10 summary: " + out[1][:200])
     sec, cur = {}, None
     for t in st[3:]:
-        if t in ("R", "C", "F", "S", "U", "P", "J", "M"):
+        if t in ("R", "C", "F", "S", "U", "P", "J", "M", "H"):
             cur = t if t != "R" else ("R2" if "R1" in sec else "R1")
             sec[cur] = []
         else:
@@ -240,6 +240,11 @@ def driver_verdicts(ctx, facts):
     confined = len(mids) == 3 and all(i not in rowsC and i in rowsF for i in mids)
     facts["model_confined"] = {"fields": [F_[i]["name"] for i in mids], "confined": confined,
                                "controller_rows": sorted(F_[i]["name"] for i in mids if i in rowsC)}
+    hids = [i for i, f in enumerate(F_) if f["cls"] == "user" and f["name"] == "hook_state"]
+    hconf = len(hids) == 1 and all(i not in rowsC and i in rowsF for i in hids)
+    facts["hooks_confined"] = hconf
+    if sec.get("H", []) != ["1" if hconf else "0"]:
+        problems.append("Lean definition and translator's evaluation differ on the confinement of the filter's hooks: lean=%s translator=%s" % (sec.get("H"), hconf))
     if sec.get("M", []) != ["1" if confined else "0"]:
         problems.append("Lean definition and translator's evaluation differ on the confinement of the model objects: lean=%s translator=%s" % (sec.get("M"), confined))
     if set(verdicts) != set(mirror) or any(verdicts[n]["ok"] != mirror[n]["ok"] for n in verdicts if n in mirror):
@@ -342,6 +347,7 @@ def run(ctx):
     other_warnings = {}
     afterwait_reports = []
     foreign_model = []
+    foreign_hook = []
     advisory_observed = set()
     for ci, line in enumerate(cases):
         r = run_tsan_case(binary, line, timeout=ctx.n(60, 240))
@@ -357,6 +363,9 @@ def run(ctx):
             # harness's model objects (measurement / likelihood / state / exogenous / initialisation model = user code that
             # belongs to the filtering thread) on the controller thread
             foreign_model.append((r, int(mfc.group(1))))
+        hfc = re.search(r"foreign_hook_calls=(\d+)", r["out"])
+        if hfc and int(hfc.group(1)) > 0 and not line.startswith("extlog"):
+            foreign_hook.append((r, int(hfc.group(1))))
         if line.startswith("extlog"):
             # advisory case (enable_log / disable_log are not commands of the property): compare with the advisory
             # prediction, never a violation
@@ -421,6 +430,18 @@ def run(ctx):
             continue
         seen.add(key)
         ctx.violation(key, what, {"harness": "h_race (tsan build)", "command": r["cmd"], "input_line": r["line"], "tsan_report": rep["text"][:5000]})
+    if foreign_hook:
+        r, n = min(foreign_hook, key=lambda x: len(x[0]["line"]))
+        ctx.violation("filter-hook-on-controller-thread",
+                      "a control or query command executed a hook of the filter (initialization_step / filtering_step / run_condition / log) on the "
+                      "controller thread (%d call(s) in `%s`, %d run(s)); hooks_confined / table_hooks_confined say no command reaches them"
+                      % (n, r["line"], len(foreign_hook)),
+                      {"harness": "h_race (tsan build)", "command": r["cmd"], "input_line": r["line"], "observed": r["out"][-300:],
+                       "runs_affected": len(foreign_hook)})
+    elif facts.get("hooks_confined") is False:
+        ctx.violation("filter-hook-on-controller-thread",
+                      "a function reachable from a control or query command invokes a hook of the user's filter (table_hooks_confined fails) "
+                      "— no harness run made the controller thread execute one", {"hooks_confined": False}, no_input=True)
     mc = facts.get("model_confined", {})
     if mc and not mc.get("confined", True) and not foreign_model:
         ctx.violation("model-hook-on-controller-thread",
@@ -492,6 +513,8 @@ def run(ctx):
         "thread_handle_operations": ["%s: %s (line %d)" % (facts["methods"][t["meth"]]["qual"], t["op"], t["line"]) for t in facts.get("thread_ops", [])],
         "model_objects_confined_to_filtering_thread": facts.get("model_confined"),
         "runs_with_model_calls_on_controller_thread": len(foreign_model),
+        "filter_hooks_confined_to_filtering_thread": facts.get("hooks_confined"),
+        "runs_with_hook_calls_on_controller_thread": len(foreign_hook),
         "afterwait_runs": sum(1 for r in runs if r["line"].startswith("afterwait")), "afterwait_reports": len(afterwait_reports),
         "translator_cross_check": {"rule": "every identifier naming a data member (…_) inside the source extent of a member function has a table row",
                                    "functions_scanned": sum(1 for m in facts["methods"] if m["body"] and m.get("end_line")),
